@@ -20,7 +20,7 @@ nundet=sum(1 for r in rows if r[2].startswith('NOT DETECTED'))
 noutside=sum(1 for r in rows if r[2].startswith('outside'))
 nmissed=sum(1 for r in rows if 'strengthened' in r[2])
 ndropped=sum(1 for r in rows if r[2].startswith('dropped'))
-benign=[l.strip() for l in open('/verif/benign/RESULTS.txt') if l.strip()]
+benign=[l.strip() for l in open('/verif/benign/RESULTS.txt') if l.strip() and ' suite=' in l]  # the matrix rows; later single-check re-runs are extra blocks
 sec=f'''
 ## 11. Implementation report
 
